@@ -53,14 +53,16 @@ type Ctx struct {
 	ReplayDir string
 	Scratch   string // per-process scratch directory (sim.Disk lives here); cwd of the process
 
-	Stats       Stats
-	Distinct    map[uint64]struct{}
-	Evals       int64
-	Violations  []*Violation
-	ClauseCount map[string]int64
-	Samples     []any
-	RunHashes   map[int]uint64
-	Runs        int
+	Stats         Stats
+	Distinct      map[uint64]struct{}
+	Evals         int64
+	Violations    []*Violation
+	ClauseCount   map[string]int64
+	Samples       []any
+	RunHashes     map[int]uint64 // kept only when KeepRunHashes (determinism self-test)
+	HashAll       uint64         // order-independent combination of all per-run event-log hashes
+	Runs          int
+	KeepRunHashes bool
 
 	run     int
 	runSeed uint64
@@ -89,7 +91,12 @@ func (c *Ctx) BeginRun(i int) *Rng {
 }
 
 // EndRun stores the run's event log hash.
-func (c *Ctx) EndRun() { c.RunHashes[c.run] = c.h }
+func (c *Ctx) EndRun() {
+	c.HashAll ^= SplitMix64(c.h ^ uint64(c.run)*0x9e3779b97f4a7c15)
+	if c.KeepRunHashes {
+		c.RunHashes[c.run] = c.h
+	}
+}
 
 // Run returns the current run index.
 func (c *Ctx) Run() int { return c.run }
@@ -142,8 +149,21 @@ func (c *Ctx) Eval() { c.Evals++ }
 // EvalN counts n executions.
 func (c *Ctx) EvalN(n int64) { c.Evals += n }
 
+// DistinctCap bounds the per-shard set of distinct-case hashes (memory); once
+// reached, further new cases are not recorded, so the reported number is a
+// conservative undercount (flagged in the evidence).
+const DistinctCap = 1 << 20
+
 // Seen records a distinct non-trivial case by hash.
-func (c *Ctx) Seen(h uint64) { c.Distinct[h] = struct{}{} }
+func (c *Ctx) Seen(h uint64) {
+	if len(c.Distinct) >= DistinctCap {
+		if _, ok := c.Distinct[h]; !ok {
+			c.Stats["distinct_set_capped_dropped"]++
+		}
+		return
+	}
+	c.Distinct[h] = struct{}{}
+}
 
 // Sample keeps up to a few sample cases for the evidence file; only the first
 // samples of the lowest run indices survive the merge.
@@ -198,7 +218,7 @@ type ShardResult struct {
 	ClauseCount map[string]int64
 	Violations  []*Violation
 	Samples     []any
-	RunHashes   map[int]uint64
+	HashAll     uint64
 	DistinctN   int
 	WallS       float64
 }
@@ -207,7 +227,7 @@ type ShardResult struct {
 func (c *Ctx) WriteShard(path string, wall float64) error {
 	r := ShardResult{Prop: c.Prop, Shard: c.Shard, Runs: c.Runs, Evals: c.Evals, Stats: c.Stats,
 		ClauseCount: c.ClauseCount, Violations: c.Violations, Samples: c.Samples,
-		RunHashes: c.RunHashes, DistinctN: len(c.Distinct), WallS: wall}
+		HashAll: c.HashAll, DistinctN: len(c.Distinct), WallS: wall}
 	data, err := json.Marshal(r)
 	if err != nil {
 		return err
